@@ -53,7 +53,7 @@ def exact_probs(case):
     return {k: float(v) for k, v in sol["probs"].items()}
 
 
-def run_kbest(text, at=None, explain=False, watch=()):
+def run_kbest(text, at=None, explain=False, watch=(), convergence=None):
     """Returns dict(kind, results {name: float | [l,u]}, explanation, fired, where, count, marks)."""
     PL.CLOCK.reset(400000)
     out = {"fired": False, "where": None}
@@ -63,11 +63,12 @@ def run_kbest(text, at=None, explain=False, watch=()):
             expl = [] if explain else None
             alarm = Alarm(at=at, watch=watch) if (at is not None or watch) else None
             try:
+                kw = {} if convergence is None else {"convergence": convergence}
                 if alarm is not None:
                     with alarm:
-                        res = cnf.evaluate(explain=expl) if explain else cnf.evaluate()
+                        res = cnf.evaluate(explain=expl, **kw) if explain else cnf.evaluate(**kw)
                 else:
-                    res = cnf.evaluate(explain=expl) if explain else cnf.evaluate()
+                    res = cnf.evaluate(explain=expl, **kw) if explain else cnf.evaluate(**kw)
             finally:
                 if alarm is not None:
                     out.update(fired=alarm.fired, where=alarm.where, count=alarm.count, marks=alarm.marks)
@@ -169,6 +170,13 @@ def explore_program(case, rng, ntimes, res):
         if isinstance(v, list) and v[1] - v[0] > 1e-8:
             raise Bad("not-tight", "fault-free: %s finished with the interval %r (width above the convergence threshold)" % (name, v))
     res["probes"]["fault_free_ok"] += 1
+    # 1b. caller-supplied convergence thresholds: an interval may be returned early, but it must contain p, and a single value must be exact
+    for conv in (0.05, 0.3):
+        oc = run_kbest(text, convergence=conv)
+        res["evaluations"] += 1
+        if oc["kind"] == "ok":
+            judge(oc["results"], exact, "fault-free convergence=%s" % conv)
+            res["probes"]["convergence_runs"] = res["probes"].get("convergence_runs", 0) + 1
     # 2. explanation
     ex = run_kbest(text, explain=True)
     res["evaluations"] += 1
@@ -222,8 +230,27 @@ def new_result():
 
 
 def case_for(seed, i):
-    return make_case(seed, i, need_solution=True, evidence_free=True, max_worlds=256,
+    case = make_case(seed, i, need_solution=True, evidence_free=True, max_worlds=256,
                      feat_override={"nonground_query": False} if i % 3 else None)
+    if case is None or not case["prog"]["queries"] or i % 2:
+        return case
+    # every other program gets an alias of one of its ground queries, queried as well: two queries on one ground node
+    from sim import ref
+    prog = case["prog"]
+    ground_q = [q for q in prog["queries"] if not any(gen.is_var(a) for a in q[1])]
+    if not ground_q:
+        return case
+    q = ground_q[0]
+    prog2 = dict(prog)
+    alias = ["zzalias", list(q[1])]
+    prog2["clauses"] = prog["clauses"] + [{"heads": [[None, alias]], "body": [[True, q]]}]
+    prog2["queries"] = [q, alias] + [x for x in prog["queries"] if x != q]
+    try:
+        R = ref.Ref(prog2, max_worlds=256)
+        sol = R.solve()
+    except ref.TooBig:
+        return case
+    return {"prog": prog2, "text": gen.program_text(prog2), "tags": case["tags"], "ref": R, "sol": sol, "digest": gen.program_digest(prog2)}
 
 
 def shards(tier, seed, scale=1.0):
